@@ -437,7 +437,7 @@ def m_tuple(I, args, kwargs):
         return ()
     v = args[0]
     if isinstance(v, SBytes):
-        if v.fixed_len() is not None:
+        if v.fixed_len() is not None or B.fix(I, v).fixed_len() is not None:
             return tuple(I.iterate(v, None, None))
         return STuple(SBytes(list(v.segs), False))
     if isinstance(v, STuple):
@@ -843,6 +843,15 @@ def m_pack(I, args, kwargs):
                 if not is_intlike(v):
                     I.raise_py(struct.error, "required argument is not an integer")
             e = iexpr(v)
+            from .intops import be_of
+
+            dec = be_of(v) if (not signed and not isinstance(v, (int, bool))) else None
+            if dec is not None and len(dec) <= size:
+                bs = [BSeg(0)] * (size - len(dec)) + [BSeg(x) for x in dec]
+                if order == "little":
+                    bs.reverse()
+                segs.extend(bs)
+                continue
             lo, hi = (-(1 << (8 * size - 1)), (1 << (8 * size - 1)) - 1) if signed else (0, (1 << (8 * size)) - 1)
             if isinstance(v, (int, bool)):
                 if not lo <= int(v) <= hi:
@@ -897,6 +906,8 @@ def m_unpack(I, args, kwargs):
         I.raise_py(TypeError, "a bytes-like object is required")
     data = B.to_sbytes(data)
     order, items = parse_struct_fmt(I, fmt)
+    if not all(isinstance(c, int) for _, c, _ in items) or data.fixed_len() is None:
+        pass
     total = 0
     for code, count, explicit in items:
         if code in ("s", "x"):
@@ -914,6 +925,7 @@ def m_unpack(I, args, kwargs):
             I.raise_py(struct.error, f"unpack requires a buffer of {total} bytes")
     elif not I.path.decide(iexpr(n) == iexpr(total)):
         I.raise_py(struct.error, f"unpack requires a buffer of {total} bytes")
+    B.fix(I, data)
     out = []
     pos = 0
     for code, count, explicit in items:
@@ -946,7 +958,9 @@ def m_unpack(I, args, kwargs):
                 elif signed:
                     out.append(I.sint(z3.If(e >= (1 << (8 * size - 1)), e - (1 << (8 * size)), e)))
                 else:
-                    out.append(I.sint(e, 0, 8 * size))
+                    from .intops import from_be
+
+                    out.append(from_be(I, [chunk.at(i) for i in idx], nb=8 * size))
             pos = B._add(pos, size)
     return tuple(out)
 
